@@ -93,28 +93,33 @@ struct Inst {
 };
 struct FCase { u64 npos; int cost; bool big; };
 
-template <typename I>
-static inline void body(const FCase &c, Inst &in, I i)
+static void extra_index(const FCase &c, long long si, u64 ui)
 {
-  bool inrange = !(i < I(0)) && (u64)i < c.npos;
-  if (!inrange) {
-    char d[128];
-    snprintf(d, sizeof d, "index=%lld (as u64 %llu) called but the range is [0,%llu)", (i64)i, (u64)i, c.npos);
-    fatal_line(4, "EXTRA", d);
-  }
+  char d[128];
+  snprintf(d, sizeof d, "index=%lld (as u64 %llu) called but the range is [0,%llu)", si, ui, c.npos);
+  fatal_line(4, "EXTRA", d);
+}
+static void record(const FCase &c, Inst &in, u64 k)
+{
   Slot &s = my_slot();
   s.cnt++;
-  s.sum += (u64)i;
+  s.sum += k;
   if (!c.big) {
-    in.seen[(size_t)i]++;
-    in.who[(size_t)i] = (unsigned short)tl_slot;
+    in.seen[(size_t)k]++;
+    in.who[(size_t)k] = (unsigned short)tl_slot;
   }
   if (c.cost) {
-    u64 k = (u64)i;
     if (k + 1 == c.npos) std::this_thread::sleep_for(std::chrono::milliseconds(3));   // slow last index
     else if (k == 0) std::this_thread::sleep_for(std::chrono::milliseconds(1));
     else if (((k * 2654435761ULL) >> 7) % 251 == 0) spin_us(20);
   }
+}
+template <typename I>
+static inline void body(const FCase &c, Inst &in, I i)
+{
+  bool inrange = !(i < I(0)) && (u64)i < c.npos;
+  if (!inrange) extra_index(c, (i64)i, (u64)i);
+  record(c, in, (u64)i);
 }
 static void post_check(const FCase &c, Inst &in)
 {
@@ -138,6 +143,22 @@ static void nest(const FCase &c, std::vector<Inst> &insts, int depth, int base, 
   if (depth == 0) { run_inst<I>(c, insts[base], n); return; }
   parallel_for(3, [&](int o) { nest<I>(c, insts, depth - 1, base * 3 + o, n); });
 }
+static void report_F(const char *id, const FCase &c, std::vector<Inst> &insts, int ninst)
+{
+  long long cnt = 0; u64 sum = 0;
+  for (auto &s : g_slots) { cnt += s.cnt; sum += s.sum; }
+  long long nbad = 0, first = -1; int thr = 0;
+  for (auto &in : insts) { nbad += in.nbad; if (first < 0) first = in.bad_first; thr = std::max(thr, in.threads); }
+  bool even = (cnt % ninst) == 0;
+  if (nbad == 0 && even && (c.big || (u64)(cnt / ninst) == c.npos))
+    printf("%s cnt=%lld ok # thr=%d\n", id, cnt / ninst, thr);
+  else
+    printf("%s cnt=%lld BAD instances=%d total_calls=%lld wrong_indices=%lld first_wrong=%lld (count seen there: %d)\n", id,
+           even ? cnt / ninst : -1, ninst, cnt, nbad, first,
+           (first >= 0 && !c.big) ? (int)insts[0].seen[(size_t)first] : -1);
+  fflush(stdout);
+  (void)sum;
+}
 template <typename I>
 static void do_F(const char *id, const char *nstr, int cost, int depth, bool is_signed)
 {
@@ -154,44 +175,30 @@ static void do_F(const char *id, const char *nstr, int cost, int depth, bool is_
     Armed a;
     nest<I>(c, insts, depth, 0, n);
   }
-  long long cnt = 0; u64 sum = 0;
-  for (auto &s : g_slots) { cnt += s.cnt; sum += s.sum; }
-  long long nbad = 0, first = -1; int thr = 0;
-  for (auto &in : insts) { nbad += in.nbad; if (first < 0) first = in.bad_first; thr = std::max(thr, in.threads); }
-  // cnt is per instance when all instances agree
-  bool even = (cnt % ninst) == 0;
-  if (nbad == 0 && even && (c.big || (u64)(cnt / ninst) == npos))
-    printf("%s cnt=%lld ok\n", id, cnt / ninst);
-  else
-    printf("%s cnt=%lld BAD instances=%d total_calls=%lld wrong_indices=%lld first_wrong=%lld (count seen there: %d)\n", id,
-           even ? cnt / ninst : -1, ninst, cnt, nbad, first,
-           (first >= 0 && !c.big) ? (int)insts[0].seen[(size_t)first] : -1);
-  fflush(stdout);
-  (void)thr; (void)sum;
+  report_F(id, c, insts, ninst);
 }
 
 // ------------------------------------------------------------------ B: parallel_in_blocks_of
 struct Blk { u64 b, e; };
 struct alignas(64) BSlot { std::vector<Blk> v; };
 static BSlot g_bslots[1024];
-template <int BS, typename I>
-static void do_B1(const char *id, const char *nstr, bool is_signed)
+static void extra_block(long long sb, long long se, u64 ub, u64 ue, const char *nstr, int bs)
 {
-  I n;
-  if (is_signed) n = (I)strtoll(nstr, 0, 10); else n = (I)strtoull(nstr, 0, 10);
-  for (auto &s : g_bslots) s.v.clear();
-  {
-    Armed a;
-    parallel_in_blocks_of<BS>(n, [&](I b, I e) { my_slot(); g_bslots[tl_slot].v.push_back(Blk{(u64)b, (u64)e}); });
-  }
+  char d[160];
+  snprintf(d, sizeof d, "block [%lld,%lld) (as u64 [%llu,%llu)) passed to f for n=%s B=%d", sb, se, ub, ue, nstr, bs);
+  fatal_line(4, "EXTRA", d);
+}
+static void record_block(u64 b, u64 e) { my_slot(); g_bslots[tl_slot].v.push_back(Blk{b, e}); }
+static void report_B(const char *id, bool is_signed, int bits)
+{
   std::vector<Blk> all;
   for (auto &s : g_bslots) all.insert(all.end(), s.v.begin(), s.v.end());
   std::sort(all.begin(), all.end(), [](const Blk &x, const Blk &y) { return x.b < y.b || (x.b == y.b && x.e < y.e); });
-  // printed as signed when the index type is signed
   std::string out = std::string(id) + " nb=" + std::to_string(all.size());
   auto show = [&](const Blk &k) {
     char t[64];
-    if (is_signed) snprintf(t, sizeof t, " [%lld,%lld)", (i64)(I)k.b, (i64)(I)k.e); else snprintf(t, sizeof t, " [%llu,%llu)", k.b, k.e);
+    if (is_signed) snprintf(t, sizeof t, " [%lld,%lld)", bits == 32 ? (i64)(int)k.b : (i64)k.b, bits == 32 ? (i64)(int)k.e : (i64)k.e);
+    else snprintf(t, sizeof t, " [%llu,%llu)", k.b, k.e);
     out += t;
   };
   if (all.size() <= 40) { for (auto &k : all) show(k); }
@@ -208,6 +215,23 @@ static void do_B1(const char *id, const char *nstr, bool is_signed)
   }
   printf("%s\n", out.c_str());
   fflush(stdout);
+}
+template <int BS, typename I>
+static void do_B1(const char *id, const char *nstr, bool is_signed)
+{
+  I n;
+  if (is_signed) n = (I)strtoll(nstr, 0, 10); else n = (I)strtoull(nstr, 0, 10);
+  for (auto &s : g_bslots) s.v.clear();
+  {
+    Armed a;
+    parallel_in_blocks_of<BS>(n, [&](I b, I e) {
+      // a block must be a non-empty piece of [0,n) of at most BS indices
+      if (!(n > I(0)) || b < I(0) || !(b < e) || (u64)e > (u64)n || (u64)e - (u64)b > (u64)BS)
+        extra_block((i64)b, (i64)e, (u64)b, (u64)e, nstr, BS);
+      record_block((u64)b, (u64)e);
+    });
+  }
+  report_B(id, is_signed, (int)sizeof(I) * 8);
 }
 template <typename I>
 static void do_B(const char *id, const char *nstr, int bs, bool is_signed)
